@@ -619,7 +619,8 @@ def run(ctx, rep):
 
     # ------------------------------------------------------------------ R08.6
     K.share(ctx, rep, "c12", lambda o: o.rule in ("R12.1", "R12.2", "R12.3", "R12.5", "R12.6", "R12.7"), "R08.6", floor=8)
-    K.share(ctx, rep, "c16", lambda o: o.rule == "R16.8", "R08.6", floor=1)     # (a reply is not cut off by an inherited OS time-out)
+    K.share(ctx, rep, "c16", lambda o: o.rule == "R16.8", "R08.6", floor=1)
+    K.share(ctx, rep, "c05", lambda o: o.rule in ("R05.4", "R05.8"), "R08.7", floor=3)     # (a response frame is read back as sent)     # (a reply is not cut off by an inherited OS time-out)
     K.share(ctx, rep, "c09", lambda o: o.rule in ("R09.4", "R09.5"), "R08.7", floor=6)
     K.connection_state(ctx, rep, "R08.8", ["_request_callbacks", "_seqcounter"])
     K.share(ctx, rep, "c01", lambda o: o.rule == "R01.2" and "exactly once" in o.key, "R08.9", floor=1)
